@@ -1773,3 +1773,297 @@ Proof.
     + rewrite offs_length by now apply reads_valid_ix_valid. rewrite Hpr. reflexivity.
     + intros d. unfold pos1, zlen. cbn [fst snd]. rewrite map_length. apply zseq_length. lia.
 Qed.
+
+(* ====================================================================================
+   canonical_slicers: for every user-level index that NumPy accepts structurally (at most one
+   Ellipsis, not more real entries than axes, ints within [-n, n), non-zero steps) the
+   canonical form is produced without error and is valid — so the hypothesis `ix_valid` of
+   fileslice_eq_numpy is met. *)
+Definition uvalid (n : Z) (i : idx) : Prop :=
+  match i with IInt k => - n <= k < n | ISl s => step_of s <> 0 | INew => True | IEll => False end.
+
+(* entries of l match, in order, the leading axes of sh (l has no Ellipsis) *)
+Fixpoint pref_valid (sh : list Z) (l : list idx) : Prop :=
+  match l with
+  | [] => True
+  | INew :: r => pref_valid sh r
+  | i :: r => match sh with n :: sh' => 0 <= n /\ uvalid n i /\ pref_valid sh' r | [] => False end
+  end.
+
+Definition conv1 (n : Z) (i : idx) : cidx :=
+  match i with
+  | IInt k => CInt (if k <? 0 then n + k else k)
+  | ISl s => CSl (norm_sl n s)
+  | _ => CNew
+  end.
+
+Fixpoint conv (sh : list Z) (l : list idx) : list cidx :=
+  match l with
+  | [] => []
+  | INew :: r => CNew :: conv sh r
+  | i :: r => conv1 (hd 0 sh) i :: conv (tl sh) r
+  end.
+
+Lemma norm_sl_step n s : step_of s <> 0 -> step_of (norm_sl n s) <> 0.
+Proof. intros H. unfold norm_sl. destruct (_ && _ && _ && _); [cbn; lia|assumption]. Qed.
+
+Lemma canon_noell : forall l pre sh acc, pref_valid sh l ->
+  canon true (pre ++ sh) l (zlen pre) acc = Ok (rev acc ++ conv sh l, zlen pre + count_real l).
+Proof.
+  induction l as [|i l IH]; intros pre sh acc Hv.
+  - cbn. rewrite app_nil_r. f_equal. f_equal. unfold count_real, zlen. cbn. lia.
+  - assert (Hcr : forall j, is_new j = false -> count_real (j :: l) = 1 + count_real l).
+    { intros j Hj. unfold count_real, zlen. cbn [filter]. rewrite Hj. cbn [negb length]. lia. }
+    destruct i as [k|s| |]; cbn [pref_valid] in Hv.
+    + destruct sh as [|n sh]; [contradiction|]. destruct Hv as (Hn & Hk & Hv). cbn [uvalid] in Hk.
+      cbn [canon]. rewrite py_nth_app. cbn [bind].
+      replace (pre ++ n :: sh) with ((pre ++ [n]) ++ sh) by (rewrite <- app_assoc; reflexivity).
+      replace (zlen pre + 1) with (zlen (pre ++ [n])) by (unfold zlen; rewrite app_length; cbn; lia).
+      rewrite (Hcr (IInt k) eq_refl). cbn [conv conv1 hd tl].
+      destruct (k <? 0) eqn:Ek.
+      * replace (true && (n + k <? 0)) with false by lia. rewrite IH by assumption.
+        cbn [rev]. rewrite <- app_assoc. cbn [app]. f_equal. f_equal. unfold zlen. rewrite app_length. cbn [length]. lia.
+      * replace (true && (n <=? k)) with false by lia. rewrite IH by assumption.
+        cbn [rev]. rewrite <- app_assoc. cbn [app]. f_equal. f_equal. unfold zlen. rewrite app_length. cbn [length]. lia.
+    + destruct sh as [|n sh]; [contradiction|]. destruct Hv as (Hn & Hs & Hv).
+      cbn [canon]. rewrite py_nth_app. cbn [bind].
+      replace (pre ++ n :: sh) with ((pre ++ [n]) ++ sh) by (rewrite <- app_assoc; reflexivity).
+      replace (zlen pre + 1) with (zlen (pre ++ [n])) by (unfold zlen; rewrite app_length; cbn; lia).
+      rewrite (Hcr (ISl s) eq_refl). cbn [conv conv1 hd tl]. rewrite IH by assumption.
+      cbn [rev]. rewrite <- app_assoc. cbn [app]. f_equal. f_equal. unfold zlen. rewrite app_length. cbn [length]. lia.
+    + cbn [canon conv]. rewrite IH by assumption. cbn [rev]. rewrite <- app_assoc. cbn [app].
+      reflexivity.
+    + destruct sh; [contradiction|destruct Hv as (_ & [] & _)].
+Qed.
+
+(* validity of the converted prefix against exactly the axes it consumes *)
+Lemma conv_valid : forall l sh, pref_valid sh l -> zlen sh = count_real l -> ix_valid sh (conv sh l).
+Proof.
+  induction l as [|i l IH]; intros sh Hv Hc.
+  - unfold count_real, zlen in Hc. cbn in Hc. destruct sh; [reflexivity|cbn in Hc; lia].
+  - assert (Hcr : forall j, is_new j = false -> count_real (j :: l) = 1 + count_real l).
+    { intros j Hj. unfold count_real, zlen. cbn [filter]. rewrite Hj. cbn [negb length]. lia. }
+    destruct i as [k|s| |]; cbn [pref_valid] in Hv.
+    + destruct sh as [|n sh]; [contradiction|]. destruct Hv as (Hn & Hk & Hv). cbn [uvalid] in Hk.
+      rewrite (Hcr (IInt k) eq_refl) in Hc. cbn [conv conv1 hd tl ix_valid valid_cidx].
+      split; [assumption|]. split; [destruct (k <? 0) eqn:E; lia|]. apply IH; [assumption|].
+      unfold zlen in *. cbn [length] in Hc. lia.
+    + destruct sh as [|n sh]; [contradiction|]. destruct Hv as (Hn & Hs & Hv). cbn [uvalid] in Hs.
+      rewrite (Hcr (ISl s) eq_refl) in Hc. cbn [conv conv1 hd tl ix_valid valid_cidx].
+      split; [assumption|]. split; [now apply norm_sl_step|]. apply IH; [assumption|].
+      unfold zlen in *. cbn [length] in Hc. lia.
+    + cbn [conv ix_valid]. apply IH; [assumption|]. unfold count_real in *. cbn [filter is_new negb] in Hc. exact Hc.
+    + destruct sh; [contradiction|destruct Hv as (_ & [] & _)].
+Qed.
+
+Lemma ix_valid_app : forall c1 s1 c2 s2, ix_valid s1 c1 -> ix_valid s2 c2 -> ix_valid (s1 ++ s2) (c1 ++ c2).
+Proof.
+  induction c1 as [|x c1 IH]; intros s1 c2 s2 H1 H2.
+  - cbn in H1. subst. exact H2.
+  - destruct x as [k|s|]; cbn [ix_valid app] in *; [| |now apply IH];
+      (destruct s1 as [|n s1]; [contradiction|]); destruct H1 as (Hn & Hx & H1); cbn [app];
+      (split; [assumption|]); (split; [assumption|now apply IH]).
+Qed.
+
+Lemma ix_valid_nones sh : Forall (fun n => 0 <= n) sh -> ix_valid sh (repeat (CSl sl_none) (length sh)).
+Proof.
+  induction 1 as [|n sh Hn HF IH]; [reflexivity|]. cbn [length repeat ix_valid valid_cidx].
+  split; [assumption|]. split; [cbn; lia|assumption].
+Qed.
+
+Lemma pref_valid_split : forall l sh, pref_valid sh l -> count_real l <= zlen sh ->
+  pref_valid (firstn (Z.to_nat (count_real l)) sh) l.
+Proof.
+  induction l as [|i l IH]; intros sh Hv Hc; [exact I|].
+  assert (Hcr : forall j, is_new j = false -> count_real (j :: l) = 1 + count_real l).
+  { intros j Hj. unfold count_real, zlen. cbn [filter]. rewrite Hj. cbn [negb length]. lia. }
+  assert (Hnn : 0 <= count_real l) by (unfold count_real, zlen; lia).
+  destruct i as [k|s| |]; cbn [pref_valid] in Hv |- *.
+  - destruct sh as [|n sh]; [contradiction|]. destruct Hv as (Hn & Hk & Hv).
+    rewrite (Hcr (IInt k) eq_refl) in *. replace (Z.to_nat (1 + count_real l)) with (S (Z.to_nat (count_real l))) by lia.
+    cbn [firstn]. split; [assumption|]. split; [assumption|]. apply IH; [assumption|]. unfold zlen in *. cbn [length] in Hc. lia.
+  - destruct sh as [|n sh]; [contradiction|]. destruct Hv as (Hn & Hk & Hv).
+    rewrite (Hcr (ISl s) eq_refl) in *. replace (Z.to_nat (1 + count_real l)) with (S (Z.to_nat (count_real l))) by lia.
+    cbn [firstn]. split; [assumption|]. split; [assumption|]. apply IH; [assumption|]. unfold zlen in *. cbn [length] in Hc. lia.
+  - unfold count_real in *. cbn [filter is_new negb] in *. now apply IH.
+  - destruct sh; [contradiction|destruct Hv as (_ & [] & _)].
+Qed.
+
+Lemma count_real_cons_real j l : is_new j = false -> count_real (j :: l) = 1 + count_real l.
+Proof. intros Hj. unfold count_real, zlen. cbn [filter]. rewrite Hj. cbn [negb length]. lia. Qed.
+
+Lemma count_real_nonneg l : 0 <= count_real l.
+Proof. unfold count_real, zlen. lia. Qed.
+
+Lemma canon_prefix : forall l rest pre sh acc, pref_valid sh l ->
+  canon true (pre ++ sh) (l ++ rest) (zlen pre) acc
+  = canon true (pre ++ sh) rest (zlen pre + count_real l) (rev (conv sh l) ++ acc).
+Proof.
+  induction l as [|i l IH]; intros rest pre sh acc Hv.
+  - cbn [app conv rev]. unfold count_real at 1, zlen at 2. cbn [filter length Z.of_nat]. now rewrite Z.add_0_r.
+  - destruct i as [k|s| |]; cbn [pref_valid] in Hv.
+    + destruct sh as [|n sh]; [contradiction|]. destruct Hv as (Hn & Hk & Hv). cbn [uvalid] in Hk.
+      cbn [app canon]. rewrite py_nth_app. cbn [bind].
+      replace (pre ++ n :: sh) with ((pre ++ [n]) ++ sh) by (rewrite <- app_assoc; reflexivity).
+      replace (zlen pre + 1) with (zlen (pre ++ [n])) by (unfold zlen; rewrite app_length; cbn [length]; lia).
+      rewrite (count_real_cons_real (IInt k) l eq_refl). cbn [conv conv1 hd tl rev].
+      replace (zlen pre + (1 + count_real l)) with (zlen (pre ++ [n]) + count_real l)
+        by (unfold zlen; rewrite app_length; cbn [length]; lia).
+      destruct (k <? 0) eqn:Ek.
+      * replace (true && (n + k <? 0)) with false by lia. rewrite IH by assumption. f_equal. now rewrite <- app_assoc.
+      * replace (true && (n <=? k)) with false by lia. rewrite IH by assumption. f_equal. now rewrite <- app_assoc.
+    + destruct sh as [|n sh]; [contradiction|]. destruct Hv as (Hn & Hs & Hv).
+      cbn [app canon]. rewrite py_nth_app. cbn [bind].
+      replace (pre ++ n :: sh) with ((pre ++ [n]) ++ sh) by (rewrite <- app_assoc; reflexivity).
+      replace (zlen pre + 1) with (zlen (pre ++ [n])) by (unfold zlen; rewrite app_length; cbn [length]; lia).
+      rewrite (count_real_cons_real (ISl s) l eq_refl). cbn [conv conv1 hd tl rev].
+      replace (zlen pre + (1 + count_real l)) with (zlen (pre ++ [n]) + count_real l)
+        by (unfold zlen; rewrite app_length; cbn [length]; lia).
+      rewrite IH by assumption. f_equal. now rewrite <- app_assoc.
+    + cbn [app canon conv rev]. rewrite IH by assumption. f_equal. now rewrite <- app_assoc.
+    + destruct sh; [contradiction|destruct Hv as (_ & [] & _)].
+Qed.
+
+Lemma conv_valid_pref : forall l sh, pref_valid sh l -> count_real l <= zlen sh ->
+  ix_valid (firstn (Z.to_nat (count_real l)) sh) (conv sh l).
+Proof.
+  induction l as [|i l IH]; intros sh Hv Hc.
+  - reflexivity.
+  - pose proof (count_real_nonneg l) as Hnn.
+    destruct i as [k|s| |]; cbn [pref_valid] in Hv.
+    + destruct sh as [|n sh]; [contradiction|]. destruct Hv as (Hn & Hk & Hv). cbn [uvalid] in Hk.
+      rewrite (count_real_cons_real (IInt k) l eq_refl) in *.
+      replace (Z.to_nat (1 + count_real l)) with (S (Z.to_nat (count_real l))) by lia.
+      cbn [firstn conv conv1 hd tl ix_valid valid_cidx].
+      split; [assumption|]. split; [destruct (k <? 0) eqn:E; lia|]. apply IH; [assumption|].
+      unfold zlen in *. cbn [length] in Hc. lia.
+    + destruct sh as [|n sh]; [contradiction|]. destruct Hv as (Hn & Hs & Hv). cbn [uvalid] in Hs.
+      rewrite (count_real_cons_real (ISl s) l eq_refl) in *.
+      replace (Z.to_nat (1 + count_real l)) with (S (Z.to_nat (count_real l))) by lia.
+      cbn [firstn conv conv1 hd tl ix_valid valid_cidx].
+      split; [assumption|]. split; [now apply norm_sl_step|]. apply IH; [assumption|].
+      unfold zlen in *. cbn [length] in Hc. lia.
+    + cbn [conv ix_valid]. unfold count_real in *. cbn [filter is_new negb] in *. now apply IH.
+    + destruct sh; [contradiction|destruct Hv as (_ & [] & _)].
+Qed.
+
+Lemma pref_valid_no_ell : forall l sh, pref_valid sh l -> existsb is_ell l = false.
+Proof.
+  induction l as [|i l IH]; intros sh Hv; [reflexivity|].
+  destruct i as [k|s| |]; cbn [pref_valid existsb is_ell orb] in *.
+  - destruct sh as [|n sh]; [contradiction|]. destruct Hv as (_ & _ & Hv). eapply IH; eauto.
+  - destruct sh as [|n sh]; [contradiction|]. destruct Hv as (_ & _ & Hv). eapply IH; eauto.
+  - eapply IH; eauto.
+  - destruct sh; [contradiction|destruct Hv as (_ & [] & _)].
+Qed.
+
+Lemma Forall_firstn {A} (P : A -> Prop) n l : Forall P l -> Forall P (firstn n l).
+Proof.
+  revert n. induction l as [|x l IH]; intros n H; destruct n; cbn [firstn]; try constructor.
+  - now inversion H.
+  - apply IH. now inversion H.
+Qed.
+Lemma Forall_skipn {A} (P : A -> Prop) n l : Forall P l -> Forall P (skipn n l).
+Proof.
+  revert n. induction l as [|x l IH]; intros n H; destruct n; cbn [skipn]; try assumption.
+  apply IH. now inversion H.
+Qed.
+
+Lemma my_skipn_skipn {A} : forall b a (l : list A), skipn a (skipn b l) = skipn (b + a) l.
+Proof.
+  induction b as [|b IH]; intros a l; [reflexivity|]. destruct l as [|x l]; [now destruct a|]. cbn [skipn Nat.add]. apply IH.
+Qed.
+
+(* the general statement: l1 before an optional Ellipsis, l2 after it *)
+Theorem canonical_valid_ell shape l1 l2 :
+  Forall (fun n => 0 <= n) shape ->
+  count_real l1 + count_real l2 <= zlen shape ->
+  pref_valid shape l1 ->
+  pref_valid (skipn (Z.to_nat (zlen shape - count_real l2)) shape) l2 ->
+  exists c, canonical_slicers true (l1 ++ IEll :: l2) shape = Ok c /\ ix_valid shape c.
+Proof.
+  intros Hsh Hcnt Hv1 Hv2.
+  pose proof (count_real_nonneg l1) as H1. pose proof (count_real_nonneg l2) as H2.
+  set (k1 := count_real l1) in *. set (k2 := count_real l2) in *. set (nd := zlen shape) in *.
+  set (m := nd - k2) in *.
+  unfold canonical_slicers.
+  pose proof (canon_prefix l1 (IEll :: l2) [] shape [] Hv1) as E1. cbn [app] in E1.
+  change (zlen (@nil Z)) with 0 in E1. rewrite Z.add_0_l, app_nil_r in E1. fold k1 in E1. rewrite E1.
+  cbn [canon]. rewrite (pref_valid_no_ell l2 _ Hv2). fold nd k2.
+  set (n_ell := nd - k1 - k2) in *.
+  assert (Hsplit : shape = firstn (Z.to_nat m) shape ++ skipn (Z.to_nat m) shape) by (symmetry; apply firstn_skipn).
+  assert (Hlen1 : zlen (firstn (Z.to_nat m) shape) = m).
+  { unfold zlen. rewrite firstn_length. unfold nd, zlen in *. lia. }
+  pose proof (canon_prefix l2 [] (firstn (Z.to_nat m) shape) (skipn (Z.to_nat m) shape)
+                (repeat (CSl sl_none) (Z.to_nat n_ell) ++ rev (conv shape l1)) Hv2) as E2.
+  rewrite <- Hsplit, Hlen1, app_nil_r in E2.
+  replace (k1 + n_ell) with m by (unfold n_ell, m; lia). rewrite E2. cbn [canon bind].
+  fold k2. replace (nd - (m + k2)) with 0 by (unfold m; lia). cbn [Z.to_nat repeat]. rewrite app_nil_r.
+  eexists. split; [reflexivity|].
+  rewrite rev_app_distr, rev_app_distr, rev_involutive, rev_involutive.
+  assert (Hrep : rev (repeat (CSl sl_none) (Z.to_nat n_ell)) = repeat (CSl sl_none) (Z.to_nat n_ell)).
+  { clear. induction (Z.to_nat n_ell) as [|q IH]; [reflexivity|]. cbn [repeat rev]. rewrite IH.
+    clear. induction q as [|q IH]; [reflexivity|]. cbn [repeat app]. now rewrite IH. }
+  rewrite Hrep, <- app_assoc.
+  (* shape = first k1 axes ++ middle n_ell axes ++ last k2 axes *)
+  assert (Hshape : shape = firstn (Z.to_nat k1) shape
+                           ++ firstn (Z.to_nat n_ell) (skipn (Z.to_nat k1) shape)
+                           ++ skipn (Z.to_nat m) shape).
+  { rewrite <- (firstn_skipn (Z.to_nat k1) shape) at 1. f_equal.
+    rewrite <- (firstn_skipn (Z.to_nat n_ell) (skipn (Z.to_nat k1) shape)) at 1. f_equal.
+    rewrite my_skipn_skipn. f_equal. unfold m, n_ell. lia. }
+  rewrite Hshape at 1.
+  apply ix_valid_app; [apply conv_valid_pref; [assumption|unfold k1, nd in *; lia]|].
+  apply ix_valid_app.
+  - assert (Hl : length (firstn (Z.to_nat n_ell) (skipn (Z.to_nat k1) shape)) = Z.to_nat n_ell).
+    { rewrite firstn_length, skipn_length. unfold nd, zlen, n_ell in *. lia. }
+    rewrite <- Hl at 2. apply ix_valid_nones. apply Forall_firstn, Forall_skipn. assumption.
+  - pose proof (conv_valid_pref l2 (skipn (Z.to_nat m) shape) Hv2) as Hc2. fold k2 in Hc2.
+    assert (Hl2 : zlen (skipn (Z.to_nat m) shape) = k2).
+    { unfold zlen. rewrite skipn_length. unfold nd, zlen, m in *. lia. }
+    specialize (Hc2 ltac:(lia)).
+    rewrite firstn_all2 in Hc2 by (unfold zlen in Hl2; lia). exact Hc2.
+Qed.
+
+Theorem canonical_valid_noell shape l :
+  Forall (fun n => 0 <= n) shape -> count_real l <= zlen shape -> pref_valid shape l ->
+  exists c, canonical_slicers true l shape = Ok c /\ ix_valid shape c.
+Proof.
+  intros Hsh Hcnt Hv. pose proof (count_real_nonneg l) as H1.
+  unfold canonical_slicers.
+  pose proof (canon_prefix l [] [] shape [] Hv) as E1. cbn [app] in E1.
+  change (zlen (@nil Z)) with 0 in E1. rewrite Z.add_0_l, !app_nil_r in E1. rewrite E1.
+  cbn [canon bind]. rewrite rev_involutive. eexists. split; [reflexivity|].
+  set (k := count_real l) in *.
+  rewrite <- (firstn_skipn (Z.to_nat k) shape) at 1.
+  apply ix_valid_app; [apply conv_valid_pref; assumption|].
+  assert (Hl : length (skipn (Z.to_nat k) shape) = Z.to_nat (zlen shape - k)).
+  { rewrite skipn_length. unfold zlen in *. lia. }
+  rewrite <- Hl. apply ix_valid_nones. now apply Forall_skipn.
+Qed.
+
+(* user-level corollaries: no hypothesis on the canonical form remains *)
+Corollary fileslice_eq_numpy_noell h file l shape w off o : h_ok h -> 0 < w -> 0 <= off ->
+  Forall (fun n => 0 <= n) shape -> count_real l <= zlen shape -> pref_valid shape l ->
+  off + w * prod shape <= zlen file ->
+  fileslice_h h file l shape w off o = numpy_slice file l shape w off o
+  /\ exists r, numpy_slice file l shape w off o = Ok r.
+Proof.
+  intros Hh Hw Hoff Hsh Hc Hv Hfit.
+  destruct (canonical_valid_noell shape l Hsh Hc Hv) as (c & Hcan & Hval).
+  destruct (fileslice_eq_numpy h file l shape w off o c Hh Hw Hoff Hcan Hval Hfit) as [E1 E2].
+  split; [exact E1|eexists; exact E2].
+Qed.
+
+Corollary fileslice_eq_numpy_ell h file l1 l2 shape w off o : h_ok h -> 0 < w -> 0 <= off ->
+  Forall (fun n => 0 <= n) shape -> count_real l1 + count_real l2 <= zlen shape ->
+  pref_valid shape l1 -> pref_valid (skipn (Z.to_nat (zlen shape - count_real l2)) shape) l2 ->
+  off + w * prod shape <= zlen file ->
+  fileslice_h h file (l1 ++ IEll :: l2) shape w off o = numpy_slice file (l1 ++ IEll :: l2) shape w off o
+  /\ exists r, numpy_slice file (l1 ++ IEll :: l2) shape w off o = Ok r.
+Proof.
+  intros Hh Hw Hoff Hsh Hc Hv1 Hv2 Hfit.
+  destruct (canonical_valid_ell shape l1 l2 Hsh Hc Hv1 Hv2) as (c & Hcan & Hval).
+  destruct (fileslice_eq_numpy h file (l1 ++ IEll :: l2) shape w off o c Hh Hw Hoff Hcan Hval Hfit) as [E1 E2].
+  split; [exact E1|eexists; exact E2].
+Qed.
